@@ -1,14 +1,14 @@
 """C16 — URL userinfo redaction reveals nothing about the credentials."""
 import shutil
 
-from vlib.core import write_cfg, count_lines
+from vlib.core import write_cfg, count_lines, CheckerError
 from props.C13 import Bg, tlc_locked, validate_trace_locked, split_file, _lock
 
 LEVEL = "model_checking"
 META = {
     "technique": "TLA+ two-copy (self-composition) model Redact.tla model-checked by TLC for non-interference; every enumerated pair replayed on RedactUserinfo / RedactUserinfoInURLError; recorded real pairs re-judged by TLC",
     "level_text": "Redact.tla holds two URL records that are equal except for their userinfo, the returned pointers (alias of the input or fresh) and an error object; TLC checks non-interference (equal results for any two non-nil userinfos), mask-only change, as-is return without userinfo, untouched inputs and that only a top-level *url.Error of a URL with userinfo changes, and only in its URL text. Every URL skeleton (scheme, opaque, host, port, path, raw path, query echoing the secret, fragment, ForceQuery, OmitHost) x every ordered pair of userinfo variants (name only, empty password, percent-escaped, mask-like, empty name, kilobyte-long) x error kind is emitted with the predicted results and replayed on the real functions: String() equality within the pair, userinfo = xxxxx:xxxxx, every other url.URL field ==, input fields / shared *Userinfo / String() unchanged, pointer identity without userinfo, Op/Err/URL of the error. Random URL pairs (also parsed ones, shared *Userinfo, odd field combinations) are recorded as field records and re-judged by RedactTrace.tla.",
-    "level_note": "Exhaustive over the component-presence skeletons and userinfo variants listed, sampled beyond; one concrete representative per component token (three per userinfo token). A typed-nil *url.Error is outside the statement.",
+    "level_note": "RedactConc.tla makes 'the input is never modified' an obligation on every intermediate state of a call (two callers and a reader on one shared URL; the save/write-mask/print/restore design must be refuted: reader sees the mask, two calls make it permanent); a free-running -race phase runs several redacting goroutines and plain readers on one shared *url.URL. Exhaustive over the component-presence skeletons and userinfo variants listed, sampled beyond; one concrete representative per component token (three per userinfo token). A typed-nil *url.Error is outside the statement.",
 }
 
 INV = ["TypeOK", "NonInterference", "MaskOnly", "AsIs", "Fresh"]
@@ -21,7 +21,8 @@ def run(ctx):
     ctx.rule = ("G: every URL skeleton x ordered pair of userinfo variants (+ the nil userinfo) x error object is one TLC state "
                 "emitted with the predicted results and replayed as a pair of RedactUserinfo calls plus one "
                 "RedactUserinfoInURLError call, every observable of the statement compared; T: seeded random pairs recorded "
-                "from the real functions as url.URL field records and re-judged by RedactTrace. "
+                "from the real functions as url.URL field records and re-judged by RedactTrace; S: free-running -race phase, "
+                "several goroutines redact one shared *url.URL while readers read it, judged after wg.Wait() and by RedactConcTrace. "
                 "distinct_nontrivial = distinct pairs with a non-nil userinfo")
     ctx.assumptions += ["url.URL values are built field by field (also combinations url.Parse never produces); strings are ASCII-escaped for TLC",
                         "the error passed is nil, a non-nil *url.Error, an error wrapping one, or another error"]
@@ -43,6 +44,44 @@ def run(ctx):
                          "traced_events": s["events"]})
 
     bg.go(t_job)
+
+    # S (free-running, -race): several goroutines redact ONE shared *url.URL while readers keep reading it.
+    # RedactConc.tla: "input unchanged" in every intermediate state of a call; the temporary-write design is refuted.
+    cd = ctx.scratch / "conc"
+    cd.mkdir()
+    for f in ("RedactConc.tla", "RedactConcTrace.tla", "RedactConcTrace.cfg"):
+        shutil.copy(d / f, cd / f)
+
+    def conc_mc():
+        consts = {"Callers": '{"c1", "c2"}', "MaxReads": 3}
+        write_cfg(cd / "ConcMC_run.cfg", "Spec", dict(consts, Impl='"copy"'),
+                  invariants=["ReaderSeesOriginal", "UnchangedAfterwards", "ResultMasked"], properties=["InputNeverWritten"])
+        tlc_locked(ctx, cd, "RedactConc", "ConcMC_run.cfg", workers=2, label="redact-conc-mc")
+        for inv in ("ReaderSeesOriginal", "UnchangedAfterwards"):
+            cfg = "ConcBad_%s.cfg" % inv
+            write_cfg(cd / cfg, "Spec", dict(consts, Impl='"tempwrite"'), invariants=[inv])
+            r = ctx.tlc(cd, "RedactConc", cfg, workers=2, expect_ok=False, count=False,
+                        label="redact-conc-tempwrite-must-fail-" + inv)
+            if r.violated != inv:
+                raise CheckerError("RedactConc.tla does not refute the temporary-write design (%s):\n%s"
+                                   % (inv, "\n".join(r.out.splitlines()[-20:])))
+
+    def conc_job():
+        out = ctx.scratch / "stress.res"
+        rounds, callers, readers, iters = (45, 4, 3, 600) if q else (300, 6, 4, 1500)
+        ctx.vh(["c16", "stress", cd / "redact_conc_trace.ndjson", out, rounds, callers, readers, iters], race=True,
+               timeout=1800, fatal_key="RedactUserinfo / RedactUserinfoInURLError under concurrency")
+        if not out.exists():
+            return          # the runtime aborted inside the code under test: recorded by ctx.vh
+        s = ctx.collect(out)
+        conc_mc()
+        validate_trace_locked(ctx, cd, "RedactConcTrace", "RedactConcTrace.cfg", "redact_conc_trace.ndjson",
+                              "concurrent redaction rounds")
+        with _lock:
+            sums.append({"evaluations": s["stress_calls"] + s["stress_reads"], "traced_events": s["rounds"],
+                         "stress_calls": s["stress_calls"], "stress_reads": s["stress_reads"]})
+
+    bg.go(conc_job)
 
     def replay_part(part, tag):
         out = ctx.scratch / (tag + ".res")
@@ -73,6 +112,17 @@ def run(ctx):
     ctx.exhaustive = True
     ctx.extra["pairs_enumerated_exhaustively"] = n_vec
     ctx.extra["trace_events_validated"] = sum(s.get("traced_events", 0) for s in sums)
+    ctx.extra["stress_calls"] = sum(s.get("stress_calls", 0) for s in sums)
+    ctx.extra["stress_reads_of_shared_url"] = sum(s.get("stress_reads", 0) for s in sums)
+    golibs, other = ctx.race_reports()
+    if other and not golibs:
+        raise CheckerError("race detector reported a race in the harness only:\n" + other[0][:3000])
+    for rep in golibs:
+        frames = [ln.strip() for ln in rep.splitlines() if "/netutil/urlutil/" in ln and ".go:" in ln]
+        where = " | ".join(sorted(set(f.split("/")[-1].split(" ")[0] for f in frames))[:4])
+        ctx.mismatch("DATA RACE on the input URL of RedactUserinfo / RedactUserinfoInURLError: " + where,
+                     "the Go race detector reported a write to the caller's URL while another goroutine used it", rep[:6000])
+    ctx.extra["race_reports_with_golibs_frames"] = len(golibs)
 
 
 def replay(ctx, path):
